@@ -1,43 +1,86 @@
-/- Proleptic Gregorian calendar arithmetic as chrono does it (UTC only): day numbers from CE, civil fields. -/
+/-
+Proleptic Gregorian calendar arithmetic (chrono's `NaiveDate::from_ymd_opt`, `num_days_from_ce`,
+`NaiveTime::from_hms_micro_opt` / `from_hms_nano_opt`) and sqlgrep's `create_timestamp` in UTC.
+
+`0001-01-01` is day 1 (chrono's `num_days_from_ce`). All runs of the checks use `TZ=UTC`, where
+`Local.from_local_datetime(..)` is the identity on the civil time.
+-/
 namespace Sqlgrep
 namespace Civil
 
-def isLeap (y : Int) : Bool := (y % 4 == 0 && y % 100 != 0) || y % 400 == 0
+def isLeap (y : Int) : Bool := y % 4 == 0 && (y % 100 != 0 || y % 400 == 0)
 
-def daysInMonth (y : Int) (m : Int) : Int :=
-  if m == 2 then (if isLeap y then 29 else 28)
-  else if m == 4 || m == 6 || m == 9 || m == 11 then 30 else 31
+def yearLen (y : Int) : Nat := if isLeap y then 366 else 365
 
-/-- chrono's `NaiveDate::from_ymd_opt` validity (year range −262143 ..= 262142) -/
-def validDate (y m d : Int) : Bool :=
-  -262143 ≤ y && y ≤ 262142 && 1 ≤ m && m ≤ 12 && 1 ≤ d && d ≤ daysInMonth y m
+/-- length of month `m` (1..12) of year `y`; 0 for anything else -/
+def monthLen (y : Int) (m : Nat) : Nat :=
+  match m with
+  | 1 => 31 | 2 => if isLeap y then 29 else 28 | 3 => 31 | 4 => 30 | 5 => 31 | 6 => 30
+  | 7 => 31 | 8 => 31 | 9 => 30 | 10 => 31 | 11 => 30 | 12 => 31 | _ => 0
 
-/-- `num_days_from_ce`: 0001-01-01 is day 1 -/
-def daysFromCE (y m d : Int) : Int :=
-  let y' := if m ≤ 2 then y - 1 else y
-  let era := y' / 400
-  let yoe := y' - era * 400
-  let mp := (m + 9) % 12
-  let doy := (153 * mp + 2) / 5 + d - 1
-  let doe := yoe * 365 + yoe / 4 - yoe / 100 + doy
-  era * 146097 + doe - 719468 + 719163
+/-- days of year `y` before the first of month `m` (1..12) -/
+def daysBeforeMonth (y : Int) (m : Nat) : Nat :=
+  let l : Nat := if isLeap y then 1 else 0
+  match m with
+  | 1 => 0 | 2 => 31 | 3 => 59 + l | 4 => 90 + l | 5 => 120 + l | 6 => 151 + l
+  | 7 => 181 + l | 8 => 212 + l | 9 => 243 + l | 10 => 273 + l | 11 => 304 + l | 12 => 334 + l
+  | _ => 0
 
-/-- inverse: (year, month, day) of a day number from CE -/
-def civilOfDays (days : Int) : Int × Int × Int :=
-  let z := days - 719163 + 719468
-  let era := z / 146097
-  let doe := z - era * 146097
-  let yoe := (doe - doe / 1460 + doe / 36524 - doe / 146096) / 365
-  let y := yoe + era * 400
-  let doy := doe - (365 * yoe + yoe / 4 - yoe / 100)
-  let mp := (5 * doy + 2) / 153
-  let d := doy - (153 * mp + 2) / 5 + 1
-  let m := if mp < 10 then mp + 3 else mp - 9
-  (if m ≤ 2 then y + 1 else y, m, d)
+/-- days from the common era before January 1st of year `y` (year 1 ↦ 0) -/
+def daysBeforeYear (y : Int) : Int := 365 * (y - 1) + (y - 1) / 4 - (y - 1) / 100 + (y - 1) / 400
 
-def pad (width : Nat) (n : Int) : String :=
-  let s := toString n.natAbs
-  (if n < 0 then "-" else "") ++ String.ofList (List.replicate (width - s.length) '0') ++ s
+/-- chrono's year range of `NaiveDate` -/
+def minYear : Int := -262143
+def maxYear : Int := 262142
+
+/-- `NaiveDate::from_ymd_opt(y, m, d).is_some()` -/
+def validDate (y : Int) (m d : Nat) : Bool :=
+  decide (minYear ≤ y) && decide (y ≤ maxYear) && decide (1 ≤ m) && decide (m ≤ 12) &&
+  decide (1 ≤ d) && decide (d ≤ monthLen y m)
+
+/-- `NaiveDate::num_days_from_ce` of a valid date -/
+def daysFromCE (y : Int) (m d : Nat) : Int := daysBeforeYear y + (daysBeforeMonth y m : Int) + (d : Int)
+
+/-- `NaiveTime::from_hms_nano_opt(h, mi, s, nano).is_some()` -/
+def validTimeNano (h mi s nano : Nat) : Bool :=
+  decide (h < 24) && decide (mi < 60) && decide (s < 60) &&
+  (decide (nano < 1000000000) || (decide (s = 59) && decide (nano < 2000000000)))
+
+/-! ### inverse: civil date of a day number (used to state that no field is altered) -/
+
+/-- year containing day number `n` -/
+def yearOfDays (n : Int) : Int :=
+  let z := n - 1
+  let q400 := z / 146097
+  let r := z % 146097
+  let c100 := if r / 36524 ≥ 4 then 3 else r / 36524
+  let r2 := r - c100 * 36524
+  let c4 := r2 / 1461
+  let r3 := r2 % 1461
+  let c1 := if r3 / 365 ≥ 4 then 3 else r3 / 365
+  400 * q400 + 100 * c100 + 4 * c4 + c1 + 1
+
+/-- month (1..12) of the `doy`-th day (1-based) of year `y` -/
+def monthOfDoy (y : Int) (doy : Nat) : Nat :=
+  if doy ≤ daysBeforeMonth y 2 then 1
+  else if doy ≤ daysBeforeMonth y 3 then 2
+  else if doy ≤ daysBeforeMonth y 4 then 3
+  else if doy ≤ daysBeforeMonth y 5 then 4
+  else if doy ≤ daysBeforeMonth y 6 then 5
+  else if doy ≤ daysBeforeMonth y 7 then 6
+  else if doy ≤ daysBeforeMonth y 8 then 7
+  else if doy ≤ daysBeforeMonth y 9 then 8
+  else if doy ≤ daysBeforeMonth y 10 then 9
+  else if doy ≤ daysBeforeMonth y 11 then 10
+  else if doy ≤ daysBeforeMonth y 12 then 11
+  else 12
+
+/-- (year, month, day) of a day number -/
+def civilOfDays (n : Int) : Int × Nat × Nat :=
+  let y := yearOfDays n
+  let doy := (n - daysBeforeYear y).toNat
+  let m := monthOfDoy y doy
+  (y, m, doy - daysBeforeMonth y m)
 
 end Civil
 end Sqlgrep
